@@ -20,10 +20,13 @@ Safety (always judged)
 Bounded progress (only while no harness server has closed a connection and no downgrade was scripted)
   P1  after N service rounds (N computed from the script) there is exactly one response per queued request
 """
+import copy
+import json
 import random
 import select
 import socket
 import ssl
+from urllib.parse import parse_qs
 
 from hio.base import tyming
 from hio.core.http import clienting
@@ -37,7 +40,10 @@ RULE = ("a case = one Client with a queue of 1-8 requests (GET/POST/PUT/DELETE/H
         "servers; per request a hop chain: 0-2 redirects (301/302/303/307, absolute Location to the same server / another port, or a "
         "relative Location) then a final response; per hop the server answers immediately / after r rounds / dribbling d bytes per "
         "round, framed by Content-Length / chunked / EOF, optionally `Connection: close`, optionally closing mid-response; plain http "
-        "or https (hio TLS client against harness ssl sockets) incl. https->https other port and https->http (downgrade). "
+        "or https (hio TLS client against harness ssl sockets) incl. https->https other port and https->plain-http sink (downgrade) with the "
+        "Location spelt http:// HTTP:// Http:// //host:port/ (network-path) ws:// htp:// ftp://. Every request carries nothing / a raw body / "
+        "JSON `data` / form `fargs` / data+body (keys absent or explicitly None), in every order over 2-3 consecutive requests on a fixed "
+        "schedule and at random. "
         "Non-trivial = queue of >= 2 requests or at least one redirect / delay / dribble / close; distinct = by the sequence of "
         "(method, per-hop (status, target, delay>0, dribble>0, framing, close kind)) plus scheme and reconnectable.")
 ASSUMPTIONS = [
@@ -58,9 +64,12 @@ TIMEOUT_S = {"quick": 240, "thorough": 1500}
 BUDGET_S = {"quick": 25, "thorough": 400}
 REQUIRE = {"requests_arrived": 800, "arrival_order_checks": 800, "rx_events_checked_against_outstanding_response": 800,
            "responses_entries_checked": 500, "redirect_histories_checked": 60, "downgrade_cases": 8,
-           "rounds_with_response_pending_and_more_requests_queued": 200, "healthy_progress_checks": 100}
+           "rounds_with_response_pending_and_more_requests_queued": 200, "healthy_progress_checks": 100,
+           "wire_payload_checks": 500, "wire_payload_checks_after_earlier_data_or_fargs": 100, "entry_request_echo_checks": 400,
+           "downgrade_refused_location_not_spelt_http": 8}
 _EXH = ("queues of 1-3 requests x {immediate, delayed, dribbled} x {no redirect, 302 same server, 307 other port} (each request of the queue "
-        "uses the same behaviour); plus reconnect-after-`Connection: close` x next response dribbled {1,2,3,16,all} bytes/round x {GET, POST} x {final length/chunked/EOF-delimited, 302 chunked}")
+        "uses the same behaviour); every order of {nothing, raw body, data, fargs} over 2 and 3 consecutive requests x {all POST, POST/DELETE/PUT "
+        "with a GET in between}; https->sink with each of 7 Location spellings x {first hop, after one https redirect}; plus reconnect-after-`Connection: close` x next response dribbled {1,2,3,16,all} bytes/round x {GET, POST} x {final length/chunked/EOF-delimited, 302 chunked}")
 EXHAUSTIVE = {"quick": _EXH, "thorough": _EXH}
 
 PORT_BASE = 42000
@@ -99,13 +108,31 @@ def gen_hop(rng, final, tls, allow_close, allow_other=True):
             "connclose": connclose, "close_mid": close_mid}
 
 
+BKINDS = ["none", "absent", "body", "data", "fargs", "data+body"]
+DOWNGRADE_FORMS = ["http", "HTTP", "Http", "netpath", "ws", "htp", "ftp"]
+
+
+def payload_of(rng, rid, bkind):
+    """The body-ish fields of a request spec: every value contains the request id, so no two requests share one."""
+    out = {"bkind": bkind, "body": "", "data": None, "fargs": None, "explicit_none": rng.random() < 0.5}
+    if bkind in ("body", "data+body"):
+        out["body"] = "raw-" + rid + "-" + "".join(rng.choice(ALPHA) for _ in range(rng.randint(0, 60)))
+    if bkind in ("data", "data+body"):
+        out["data"] = {"rid": rid, "n": rng.randint(0, 999), "list": [rid, rng.randint(0, 9)], "nested": {"k": "v " + rid}}
+    if bkind == "fargs":
+        out["fargs"] = {"rid": rid, "name": "".join(rng.choice(ALPHA) for _ in range(rng.randint(1, 12))), "n": str(rng.randint(0, 99))}
+    return out
+
+
 def gen_req(rng, rid, tls, allow_close, allow_other=True):
-    method = rng.choice(["GET", "GET", "GET", "POST", "PUT", "DELETE", "HEAD"])
-    body = "".join(rng.choice(ALPHA) for _ in range(rng.randint(1, 80))) if method in ("POST", "PUT") else ""
+    method = rng.choice(["GET", "GET", "GET", "POST", "POST", "PUT", "DELETE", "HEAD"])
+    bkind = rng.choice(["none", "none", "absent", "body", "body", "data", "data", "fargs", "fargs", "data+body"])
     nred = rng.choice([0, 0, 0, 0, 1, 1, 2])
     hops = [gen_hop(rng, False, tls, allow_close, allow_other) for _ in range(nred)] + [gen_hop(rng, True, tls, allow_close)]
-    return {"id": rid, "method": method, "body": body, "qargs": rng.choice([None, None, {"a": "1"}, {"k": rid, "z": "9"}]),
-            "extra": rng.random() < 0.5, "hops": hops}
+    r = {"id": rid, "method": method, "qargs": rng.choice([None, None, {"a": "1"}, {"k": rid, "z": "9"}]),
+         "extra": rng.random() < 0.5, "hops": hops}
+    r.update(payload_of(rng, rid, bkind))
+    return r
 
 
 def fixed_req(rid, timing, redirect):
@@ -123,6 +150,7 @@ def fixed_req(rid, timing, redirect):
 
 
 def cases(tier, seed, shard, nshards):
+    import itertools
     i = 0
     for n in (1, 2, 3):
         for timing in ("immediate", "delayed", "dribbled"):
@@ -146,6 +174,36 @@ def cases(tier, seed, shard, nshards):
                     reqs[1]["hops"][0]["framing"] = framing
                     yield {"kind": "reconnect", "tls": False, "reconnectable": True, "reqs": reqs}
                 i += 1
+    # fixed schedule: every order of {nothing, raw body, data, fargs} over 2 and 3 consecutive non-GET requests of one
+    # client (+ the same with a GET / a key-less request in between): what request k puts on the wire and what its
+    # entry echoes must be request k's own, whatever the earlier requests carried
+    frng = random.Random("C19:bodymix")
+    for ln in (2, 3):
+        for kinds in itertools.product(["none", "body", "data", "fargs"], repeat=ln):
+            for variant in ("post", "mixed"):
+                if i % nshards == shard:
+                    reqs = []
+                    for j, bk in enumerate(kinds):
+                        r = fixed_req(f"M{i}q{j}", "immediate", "none")
+                        r["method"] = "POST" if variant == "post" else ["POST", "DELETE", "PUT"][j % 3]
+                        r.update(payload_of(frng, r["id"], bk))
+                        r["explicit_none"] = (variant == "post")
+                        reqs.append(r)
+                        if variant == "mixed" and j == 0:
+                            g = fixed_req(f"M{i}g{j}", "immediate", "none")     # a GET in between sends no body at all
+                            g.update(payload_of(frng, g["id"], "absent"))
+                            reqs.append(g)
+                    yield {"kind": "bodymix", "tls": False, "reconnectable": False, "reqs": reqs}
+                i += 1
+    # fixed schedule: https client, one request redirected to the plain-http sink C with every Location spelling
+    for form in DOWNGRADE_FORMS:
+        for pre in (0, 1):
+            if i % nshards == shard:
+                r = fixed_req(f"D{i}q0", "immediate", "same" if pre else "none")
+                r["hops"] = r["hops"][:pre] + [dict(r["hops"][-1], status=307, target="downgrade", locform=form)]
+                after = fixed_req(f"D{i}q1", "immediate", "none")
+                yield {"kind": "downgrade", "tls": True, "reconnectable": False, "reqs": [r, after]}
+            i += 1
     rng = random.Random(f"{seed}:C19:{shard}")
     nrand = (720 if tier == "quick" else 32000) // nshards
     for c in range(nrand):
@@ -162,6 +220,7 @@ def cases(tier, seed, shard, nshards):
             k = rng.randrange(nreq)
             h = gen_hop(rng, False, tls, False)
             h["target"] = "downgrade"
+            h["locform"] = rng.choice(DOWNGRADE_FORMS)
             h["close_mid"] = None
             reqs[k]["hops"] = [x for x in reqs[k]["hops"] if x["target"] is not None][:rng.choice([0, 0, 1])] + [h]
             for hh in reqs[k]["hops"]:
@@ -181,6 +240,7 @@ class World:
         self.case = case
         self.log = []
         self.script = {r["id"]: r for r in case["reqs"]}
+        self.ids = [r["id"] for r in case["reqs"]]
         self.expected = []            # [(id, hop)] in the order requests must arrive
         for r in case["reqs"]:
             for h in range(len(r["hops"])):
@@ -409,6 +469,21 @@ class RawServer:
             w.ctx.count("request_sent_to_previous_redirect_target")
         if msg.method != req["method"]:
             w.ctx.count("hop_method_differs_from_original")
+        if hop == 0:
+            w.ctx.count("wire_payload_checks")
+            w.ctx.count("wire_payload_kind_" + bkind_of(req))
+            qi = w.ids.index(rid)
+            if any(bkind_of(e) in ("data", "fargs", "data+body") for e in w.case["reqs"][:qi]) and \
+                    bkind_of(req) not in ("data", "data+body"):
+                w.ctx.count("wire_payload_checks_after_earlier_data_or_fargs")
+            if not wire_payload_matches(req, msg):
+                stale = next((e for e in w.case["reqs"][:qi] if bkind_of(e) not in ("none", "absent")
+                              and wire_payload_matches(dict(e, method=req["method"]), msg)), None)
+                what = (f"stale-{bkind_of(stale).split('+')[0]}-of-earlier-request" if stale is not None else "not-its-own")
+                w.viol("request-payload-on-wire:" + what,
+                       f"request {rid} ({req['method']}, spec {bkind_of(req)}: body={req.get('body')!r} data={req.get('data')!r} "
+                       f"fargs={req.get('fargs')!r}) arrived with content-type {msg.get('content-type')!r} and body "
+                       f"{msg.body[:120]!r}" + (f" = the payload of the earlier request {stale['id']}" if stale is not None else ""))
         c.queue.append(self._plan(req, hop, h, msg, key))
         w.outstanding = key
 
@@ -511,7 +586,9 @@ def location(w, req, hop, here):
     if h["target"] == "other":
         return f"{scheme}://{host}:{w.ports['B' if here == 'A' else 'A']}{path}"
     if h["target"] == "downgrade":
-        return f"http://{host}:{w.ports['C']}{path}"
+        form = h.get("locform", "http")
+        rest = f"{host}:{w.ports['C']}{path}"
+        return "//" + rest if form == "netpath" else f"{form}://{rest}"
     raise AssertionError(h["target"])
 
 
@@ -574,10 +651,47 @@ def request_dict(r):
     hdrs = [("X-Id", r["id"]), ("Accept", "*/*")]
     if r["extra"]:
         hdrs.append(("X-Extra", "e-" + r["id"]))
-    d = {"method": r["method"], "path": f"/h0/{r['id']}", "headers": dict(hdrs), "body": r["body"].encode("latin-1") if r["body"] else b"",
+    d = {"method": r["method"], "path": f"/h0/{r['id']}", "headers": dict(hdrs),
          "qargs": dict(r["qargs"]) if r["qargs"] else dict(), "fragment": "",
          "reply": {"rid": r["id"]}}
+    bk = bkind_of(r)
+    if bk in ("body", "data+body"):
+        d["body"] = r["body"].encode("latin-1")
+    elif bk == "none":
+        d["body"] = b""
+    if bk in ("data", "data+body"):
+        d["data"] = copy.deepcopy(r["data"])
+    if bk == "fargs":
+        d["fargs"] = dict(r["fargs"])
+    if r.get("explicit_none"):          # what Client.request() stores for fields that were not given
+        for k in ("body", "data", "fargs"):
+            d.setdefault(k, None)
     return d
+
+
+def bkind_of(r):
+    return r.get("bkind") or ("body" if r.get("body") else "none")
+
+
+def wire_payload_matches(spec, msg):
+    """Is the body / content-type of the request `msg` on the wire the one implied by `spec` alone?
+    (GET sends nothing; data -> JSON; fargs -> form; else the raw body; compared by meaning, not by spelling)"""
+    bk = bkind_of(spec)
+    ctype = (msg.get("content-type") or "").lower()
+    if spec["method"] == "GET" or bk in ("none", "absent"):
+        return msg.body == b"" and (spec["method"] == "GET" or not ctype)
+    if bk in ("data", "data+body"):
+        try:
+            return ctype.startswith("application/json") and json.loads(msg.body.decode("utf-8")) == spec["data"]
+        except ValueError:
+            return False
+    if bk == "fargs":
+        try:
+            got = parse_qs(msg.body.decode("utf-8"), keep_blank_values=True, strict_parsing=True) if msg.body else {}
+        except ValueError:
+            return False
+        return ctype.startswith("application/x-www-form-urlencoded") and got == {k: [str(v)] for k, v in spec["fargs"].items()}
+    return msg.body == spec["body"].encode("latin-1") and not ctype
 
 
 def rounds_budget(case):
@@ -688,8 +802,33 @@ def _drive(case, ctx, w, servers, client, tymist):
                     w.viol("response-attributed-to-wrong-request",
                            f"responses[{i}] is the server's answer to {echo!r} but is attached to request {got_id!r}")
                     return False
-            # S4 redirect history
             req = w.script.get(got_id)
+            # S3b: the entry carries ITS request (only for requests that were not redirected: redirect() rebuilds the
+            # requester from the Location, that divergence is counted elsewhere and not judged)
+            if req is not None and len(req["hops"]) == 1:
+                ctx.count("entry_request_echo_checks")
+                bk = bkind_of(req)
+                own = {"method": req["method"], "path": f"/h0/{got_id}", "qargs": dict(req["qargs"]) if req["qargs"] else {},
+                       "data": req.get("data") if bk in ("data", "data+body") else None,
+                       "fargs": req.get("fargs") if bk == "fargs" else None,
+                       "body": req["body"].encode("latin-1") if bk in ("body", "data+body") else b""}
+                for field, want_v in own.items():
+                    got_v = rq.get(field)
+                    if field == "qargs":
+                        got_v = dict(got_v or {})
+                    elif field == "body":
+                        got_v = bytes(got_v or b"")
+                    elif field == "fargs" and got_v is not None:
+                        got_v = dict(got_v)
+                    if got_v != want_v:
+                        earlier = [x for x in reqs[:i] if x.get(field) not in (None, "", {}) and
+                                   (x.get(field) == got_v or (field == "body" and x["body"].encode("latin-1") == got_v))]
+                        how = "stale-from-earlier-request" if earlier else "not-its-own"
+                        w.viol(f"response-entry-request-echo:{field}:{how}",
+                               f"responses[{i}]['request'][{field!r}] is {got_v!r}; request {got_id} was queued with {want_v!r}"
+                               + (f" (that value belongs to the earlier request {earlier[0]['id']})" if earlier else ""))
+                        break
+            # S4 redirect history
             if req is not None and not w.server_closed:
                 rh = e.get("headers") or {}
                 xhop = rh.get("X-Hop") if hasattr(rh, "get") else None
@@ -699,10 +838,19 @@ def _drive(case, ctx, w, servers, client, tymist):
                     w.expected = [k for k in w.expected if not (k[0] == got_id and k[1] > int(xhop))]
                     if target == "downgrade":
                         ctx.count("downgrade_refused_entry_is_the_redirect")
+                        form = req["hops"][int(xhop)].get("locform", "http")
+                        ctx.count("downgrade_refused_locform_" + form)
+                        if form not in ("http",):
+                            ctx.count("downgrade_refused_location_not_spelt_http")
                     else:
                         w.viol("redirect-not-followed:" + str(target),
                                f"responses[{i}] (request {got_id}) is the redirect of hop {xhop} itself (status {e.get('status')}, "
                                f"Location {rh.get('Location')!r}, errored={e.get('errored')}, error={e.get('error')!r}) instead of the final response")
+                elif not e.get("errored") and req["hops"][-1]["target"] == "downgrade":
+                    w.viol("downgrade-followed:entry-is-a-followed-redirect",
+                           f"responses[{i}] (request {got_id}) is a final response (status {e.get('status')}, redirects "
+                           f"{[(h.get('status'), (h.get('headers') or {}).get('Location')) for h in (e.get('redirects') or [])]}) although its last scripted hop "
+                           f"redirects from https to {w.issued.get((got_id, len(req['hops']) - 1))!r}")
                 elif not e.get("errored"):
                     nred = len(req["hops"]) - 1
                     hist = e.get("redirects") or []
